@@ -8,7 +8,7 @@ def run(ctx):
     big = ctx.thorough()
     behs = {}
     for ap in (False, True):
-        c = {"Pfxs": {"x", "y"}, "Paths": {"a", "b", "c"}, "AddPathTX": ap, "MaxDepth": 99, "Acts": {"add", "remove", "flush", "bucket"}}
+        c = {"Pfxs": {"x", "y"}, "Paths": {"a", "b", "c"}, "AddPathTX": ap, "MaxDepth": 99, "Acts": {"add", "remove", "flush", "bucket"}, "ViaRibOut": False}
         # design: every interleaving of Adj-RIB-Out changes with single buckets of a round and complete flushes
         ctx.design("Sender", vf.cfg_text(constants=c, invariants=INV, view="View"), label="design addpath=%s" % ap)
         if big:
@@ -22,12 +22,19 @@ def run(ctx):
             raise vf.Infra("Sender violates its invariants: %s" % r.violation)
         rs = ctx.simulate("Sender", vf.cfg_text(next="NextSim", constants=dict(g, MaxDepth=16)), num=1500 if big else 250, depth=16)
         behs[ap] = vf.subsample(ctx.rng, r.behaviours, 30000 if big else 3000) + rs.behaviours
+    # the same calls made on the session's Adj-RIB-Out (no add-path): AddPath with any path, also the one already stored
+    v = {"Pfxs": {"x", "y"}, "Paths": {"a", "b"}, "AddPathTX": False, "MaxDepth": 6 if not big else 7, "Acts": {"put", "remove", "flush"}, "ViaRibOut": True}
+    ctx.design("Sender", vf.cfg_text(constants=dict(v, MaxDepth=99, Acts={"put", "remove", "flush", "bucket"}), invariants=INV, view="View"), label="design via Adj-RIB-Out")
+    # all paths (no VIEW): putting the stored path again leaves the abstract state alone, what it did shows at the next flush
+    rv = ctx.tlc("Sender", vf.cfg_text(constants=dict(v, Pfxs={"x"}), invariants=INV, action_constraints=["Emit"]), workers=1, label="gen via Adj-RIB-Out", timeout=1800)
+    via = vf.subsample(ctx.rng, rv.behaviours, 20000 if big else 2500)
     ctx.rule = ("one witness per transition of the Sender graph (2 prefixes x 3 attribute bundles, with and without add-path; AddPath / "
                 "RemovePath as the Adj-RIB-Out issues them, flush of the queue) plus seeded random behaviours of length 16; replayed on "
                 "the real UpdateSender bound to a capturing connection, each behaviour 6 times (bucket order is Go map order); after "
                 "every step the captured UPDATE stream is decoded by the independent reference decoder and folded into the peer's view "
                 "(keyed by prefix and path identifier), which must equal the spec's; also with the sender's periodic goroutine "
-                "running (quiescent points only); IPv4 classic and IPv6 multiprotocol; the three bundles differ in exactly one attribute, "
+                "running (quiescent points only); IPv4 classic and IPv6 multiprotocol; also with the calls made on a real Adj-RIB-Out in front of the sender (AddPath with "
+                "any path, the stored one included); the three bundles differ in exactly one attribute, "
                 "in turn MED, COMMUNITIES, LARGE_COMMUNITIES, OTC, an unknown transitive attribute, ORIGIN, ATOMIC_AGGREGATE/AGGREGATOR. non-trivial = a RemovePath while something is queued")
 
     def nt(b):
@@ -37,6 +44,8 @@ def run(ctx):
                 return True
             q = s["st"]["queued"]
         return False
+    for v6 in (False, True):
+        ctx.replay("sender", via, params={"addpath": False, "v6": v6, "ibgp": v6, "via_ribout": True}, nontrivial=nt, per_timeout=20)
     for ap in (False, True):
         for v6 in (False, True):
             ctx.replay("sender", behs[ap], params={"addpath": ap, "v6": v6, "ibgp": v6}, nontrivial=nt, per_timeout=20)
